@@ -1095,13 +1095,52 @@ theorem compact_verBound {s s' : Lsm} {cd : CompactDef} {d n now : Nat} (h : Lsm
 
 end LL
 
-/-- evaluate `Lsm.compact` & co. on closed terms (`merge2` is defined by well-founded recursion, so
-    `decide` alone gets stuck; its equation lemmas are used instead) -/
-macro "lsm_eval" : tactic => `(tactic|
-  (simp [Lsm.compact, compactOutput, mergeAll, merge2_cons_cons, pickIdx, checkOverlap, keyRangeOf, Tbl.smallest,
-      Tbl.biggest, zipIdx, tblOverlaps, subcompact, filtRun, filtStep, hasAnyPrefix, splitSizes, withIds, removeIdx,
-      sortBySmallest, insertBySmallest, deletedOrExpired, hasBit, bitDelete, bitMerge, bitDiscardEarlier, List.range,
-      List.range.loop, entCmp, kvCmp, cmpBytes, Ent.ikey, keyWithTs]
-   try decide))
+/-! ## evaluating compactions on closed terms -/
+
+deriving instance DecidableEq for Lsm
+
+/-- fuel-driven copy of `merge2` (structural, so the kernel can evaluate it) -/
+def merge2F : Nat → List Ent → List Ent → List Ent
+  | 0, _, _ => []
+  | _ + 1, [], ys => ys
+  | _ + 1, x :: xs, [] => x :: xs
+  | f + 1, x :: xs, y :: ys =>
+    match entCmp x y with
+    | .lt => x :: merge2F f xs (y :: ys)
+    | .eq => x :: merge2F f xs ys
+    | .gt => y :: merge2F f (x :: xs) ys
+
+theorem merge2_eq_F (f : Nat) (xs ys : List Ent) (h : xs.length + ys.length < f) :
+    merge2 xs ys = merge2F f xs ys := by
+  induction f generalizing xs ys with
+  | zero => omega
+  | succ f ih =>
+    cases xs with
+    | nil => simp [merge2F]
+    | cons x xs =>
+      cases ys with
+      | nil => simp [merge2F]
+      | cons y ys =>
+        rw [merge2_cons_cons]
+        simp only [merge2F]
+        simp only [List.length_cons] at h
+        cases hc : entCmp x y with
+        | lt => simp only; rw [ih _ _ (by simp; omega)]
+        | eq => simp only; rw [ih _ _ (by omega)]
+        | gt => simp only; rw [ih _ _ (by simp; omega)]
+
+def mergeAllF (srcs : List (List Ent)) : List Ent :=
+  srcs.foldr (fun a b => merge2F (a.length + b.length + 1) a b) []
+
+theorem mergeAll_eq_F (srcs : List (List Ent)) : mergeAll srcs = mergeAllF srcs := by
+  unfold mergeAll mergeAllF
+  induction srcs with
+  | nil => rfl
+  | cons a l ih => simp only [List.foldr_cons, ih]; exact merge2_eq_F _ _ _ (by omega)
+
+/-- decide a closed statement about `Lsm.compact`: `merge2` is defined by well-founded recursion, so
+    it is first replaced by its fuel-driven copy -/
+macro "lsm_decide" : tactic => `(tactic|
+  (simp only [Lsm.compact, compactOutput, mergeAll_eq_F]; decide))
 
 end Badger
